@@ -16,6 +16,10 @@ import subprocess
 import sys
 import time
 
+sys.setrecursionlimit(1000000)
+import threading
+threading.stack_size(512 * 1024 * 1024)
+
 V = "/verif"
 REPO = os.environ.get("VERIF_REPO", "/repo")
 # the overrides below are used only by tools/mutant.sh (private scratch copy of /repo + harness)
